@@ -157,7 +157,7 @@ def p_contention(thorough=False, H=8, timeout=120):
                 if not thorough and (sname in ("ss", "ff")) and (rule != 0 or fix is not None):
                     continue
                 # three workers only on a slice of the thorough cubes (the third worker adds two symbolic parameters)
-                nW = 3 if (thorough and fix is None and teams == "one" and rule in (0, 4)) else 2
+                nW = 3 if (fix is None and teams == "one" and rule == 0 and (thorough or sname in ("indep", "fork"))) else 2
                 tasks = [{"w": "$w%d" % i} for i in range(3)]
                 if fix == "t0:w1":
                     tasks[0]["fixw"] = [1]
@@ -170,8 +170,12 @@ def p_contention(thorough=False, H=8, timeout=120):
                     elif w == 1:
                         wk = {"skills": {"0": 1, "1": 1, "2": 1}}
                     else:
-                        wk = {"skills": {"1": 2, "2": "$s22"}, "abs": ["$a2"]}
-                    if solo == w:
+                        wk = {"skills": {"0": 1, "1": 2, "2": "$s22"}, "abs": ["$a2"]}
+                    if nW == 3 and solo is not None:
+                        # with three workers the solo one is the middle candidate
+                        if w == 1:
+                            wk["solo"] = True
+                    elif solo == w:
                         wk["solo"] = True
                     ws.append(wk)
                 if teams == "one":
@@ -179,9 +183,9 @@ def p_contention(thorough=False, H=8, timeout=120):
                 else:
                     tm = [_team(ws[:1], [0, 1]), _team(ws[1:], [0, 1, 2])]
                 spec = {"tasks": tasks, "edges": [list(e) for e in es], "teams": tm, "run": {"max_time": H, "rule": rule}}
-                params = [["w%d" % i, 0 if thorough else 1, 2 if (thorough and nW == 3) else (3 if thorough else 2)] for i in range(3)] + [["s0%d" % i, 0, 2] for i in range(3)] + [["a0", -1, 2]]
+                params = [["w%d" % i, 1, 2 if (not thorough or nW == 3) else 3] for i in range(3)] + [["s0%d" % i, 0, 2] for i in range(3)] + [["a0", -1, 2]]
                 if nW == 3:
-                    params += [["s22", 0, 2], ["a2", -1, 1]]
+                    params += [["s22", 0, 2], ["a2", -1, 1 if thorough else -1]]
                 obs.append({"name": "cont/%s/rule=%d/solo=%s/fix=%s/teams=%s" % (sname, rule, solo, fix, teams), "harness": "sim",
                             "cube": {"spec": spec}, "params": params, "timeout": timeout})
     return obs
@@ -278,17 +282,24 @@ def p_feasible(thorough=False, timeout=150):
     edge_sets = list(all_edge_sets(T))
     for es in edge_sets:
         for ks in itertools.product((0, 1, 2, 3), repeat=len(es)):
-            for layout in ("private", "shared1", "shared2", "mixed"):
+            for layout in ("private", "shared1", "shared2", "mixed", "chainshare"):
+                if layout == "chainshare" and any(k in (2, 3) for k in ks):
+                    continue  # the strong feasibility predicate asks for private workers with FF/SF links
                 if layout == "private":
                     ws = [{"skills": {str(i): ("$s%d" % i)}, "abs": (["$a0"] if i == 0 else [])} for i in range(T)]
                 elif layout.startswith("shared"):
                     nw = int(layout[6:])
                     ws = [{"skills": {str(i): ("$s%d" % i if w == 0 else 1) for i in range(T)}, "abs": (["$a0"] if w == 0 else [])} for w in range(nw)]
+                elif layout == "chainshare":
+                    # worker 0 serves every task and has the absence step; worker 1 only helps on task 0
+                    ws = [{"skills": {str(i): 1 for i in range(T)}, "abs": ["$a0"]}, {"skills": {"0": "$s0"}}]
                 else:
                     ws = [{"skills": {str(i): "$s%d" % i}, "abs": (["$a0"] if i == 0 else [])} for i in range(T)] + [{"skills": {str(i): 1 for i in range(T)}}]
                 spec = {"tasks": [{"w": "$w%d" % i} for i in range(T)], "edges": [[i, j, k] for (i, j), k in zip(es, ks)],
                         "teams": [_team(ws, list(range(T)))], "run": {"max_time": H, "abs": ["$pa0"]}}
                 params = [["w%d" % i, 0, wmax] for i in range(T)] + [["s%d" % i, 0, 2] for i in range(T)] + [["a0", -1, 2], ["pa0", -1, 2]]
+                if layout == "chainshare":
+                    params = [["w%d" % i, 0, 3] for i in range(T)] + [["s0", 0, 2], ["a0", -1, 3], ["pa0", -1, 2]]
                 obs.append({"name": "live/T=%d/%s/edges=%s" % (T, layout, ",".join("%d%s%d" % (i, KN[k], j) for (i, j), k in zip(es, ks)) or "-"),
                             "harness": "sim", "cube": {"spec": spec}, "params": params, "timeout": timeout})
     return obs
@@ -306,7 +317,7 @@ def p_maxtime(thorough=False, timeout=150):
     return obs
 
 
-def p_product(kind, thorough=False, H=8, timeout=150, targets="all"):
+def p_product(kind, thorough=False, H=8, timeout=150, targets="all", absence=False, flag=False, auto_second=False):
     """Component placement.  kind: F1 flat, one task per component; F2 flat, two tasks on component 0;
     N1 one nesting level (component 0 is the parent of component 1); E1 adds a component without task."""
     obs = []
@@ -316,7 +327,13 @@ def p_product(kind, thorough=False, H=8, timeout=150, targets="all"):
                 for nwp in (1, 2):
                     if nwp == 1 and links != "none":
                         continue
-                    if kind == "N2":
+                    if kind == "F3":
+                        # component 0 carries tasks 0 and 2; task 2 waits for task 1 of component 1
+                        tasks = [{"w": "$w0", "nf": True, "comp": 0}, {"w": "$w1", "nf": True, "comp": 1}, {"w": "$w2", "nf": True, "comp": 0}]
+                        comps = [{"size": "$z0"}, {"size": "$z1"}]
+                        edges = [[1, 2, 0]] if dep == "fs" else [[1, 2, 1]]
+                        params = [["w0", 1, 2], ["w1", 1, 3], ["w2", 1, 2]]
+                    elif kind == "N2":
                         # parent component 0 with two children that carry tasks of their own
                         tasks = [{"w": "$w0", "nf": True, "comp": 1}, {"w": "$w1", "nf": True, "comp": 2}, {"w": "$w2", "nf": True, "comp": 0}]
                         comps = [{"size": "$z0", "children": [1, 2]}, {"size": "$z1"}, {"size": "$z1"}]
@@ -357,10 +374,25 @@ def p_product(kind, thorough=False, H=8, timeout=150, targets="all"):
                     if targets != "all" and nwp == 1:
                         continue
                     ws = [{"skills": {str(i): 1 for i in range(nT)}, "fskills": {str(f): 1 for f in range(nwp + (1 if nwp == 1 else 0))}} for _ in range(2)]
-                    spec = {"tasks": tasks, "edges": edges, "teams": [_team(ws, list(range(nT)))], "wps": wps, "comps": comps, "run": {"max_time": H}}
+                    run = {"max_time": H}
+                    if absence:
+                        run["abs"] = ["$pa0", "$pa1"]
+                        run["flag"] = flag
+                        params = params + [["pa0", 0, 3], ["pa1", 1, 5]]
+                    if auto_second:
+                        # the second task becomes an automatic task bound to its component
+                        tasks[1] = dict(tasks[1], auto=True, nf=False)
+                    spec = {"tasks": tasks, "edges": edges, "teams": [_team(ws, list(range(nT)))], "wps": wps, "comps": comps, "run": run}
                     pr = params + [["z0", 1, 2], ["z1", 1, 2]] + [["cap%d" % pi, 1, 3] for pi in range(nwp)] + [["fs%d" % pi, 0, 2] for pi in range(nwp)]
-                    obs.append({"name": "prod/%s/wps=%d/links=%s/wprule=%d/%s%s" % (kind, nwp, links, wprule, dep, "" if targets == "all" else "/targets=" + targets), "harness": "sim",
-                                "cube": {"spec": spec}, "params": pr, "timeout": timeout})
+                    nm = "prod/%s/wps=%d/links=%s/wprule=%d/%s%s" % (kind, nwp, links, wprule, dep, "" if targets == "all" else "/targets=" + targets)
+                    if absence:
+                        nm += "/abs/flag=%d" % flag
+                    if auto_second:
+                        nm += "/auto1"
+                    ob = {"name": nm, "harness": "sim", "cube": {"spec": spec}, "params": pr, "timeout": timeout}
+                    if absence:
+                        ob["pre"] = "pa0 < pa1"
+                    obs.append(ob)
     return obs
 
 
@@ -415,6 +447,8 @@ def _obligations_for(prop, tier):
     if prop in ("C02", "C03", "C04", "C06"):
         obs = p_contention(thorough, H=12 if thorough else 8, timeout=900 if thorough else 150)
         obs += p_facility(thorough, H=12 if thorough else 8, timeout=900 if thorough else 150)
+        if prop == "C06":
+            obs += p_absence(wmax=3 if thorough else 2, H=12 if thorough else 8, timeout=900 if thorough else 200, kinds=(0, 2) if not thorough else (0, 1, 2, 3))
         if prop in ("C03", "C04", "C06"):
             obs += p_product("F2", thorough, H=12 if thorough else 8, timeout=900 if thorough else 150, targets="split")
             obs += p_resource_rules(thorough, H=12 if thorough else 8, timeout=900 if thorough else 150)
@@ -431,13 +465,16 @@ def _obligations_for(prop, tier):
         return obs
     if prop == "C13":
         obs = []
-        for kind in ("F1", "F2", "N1", "N2"):
+        for kind in ("F1", "F2", "N1", "N2", "F3"):
             obs += p_product(kind, thorough, timeout=900 if thorough else 150)
+        obs += [ob for ob in p_product("F1", thorough, timeout=900 if thorough else 150, absence=True) if thorough or "wprule=0" in ob["name"]]
         return obs
     if prop == "C14":
         obs = []
-        for kind in ("F1", "F2", "N1", "E1"):
+        for kind in ("F1", "F2", "N1", "E1", "F3"):
             obs += p_product(kind, thorough, timeout=900 if thorough else 150)
+        for flag in (False, True):
+            obs += [ob for ob in p_product("F2", thorough, timeout=900 if thorough else 150, absence=True, flag=flag, auto_second=True) if thorough or "wprule=0" in ob["name"]]
         return obs
     if prop == "C05":
         obs = p_feasible(thorough, timeout=900 if thorough else 150) + p_maxtime(thorough, timeout=600 if thorough else 150)
@@ -451,5 +488,5 @@ def _obligations_for(prop, tier):
     if prop == "C07":
         return split_param(split_param(p_cost(thorough, timeout=900 if thorough else 150), "pa0"), "a0") + p_facility(thorough, timeout=900 if thorough else 150)[:8]
     if prop == "C10":
-        return split_param(p_absence(wmax=3 if thorough else 2, H=12 if thorough else 8, timeout=900 if thorough else 200), "pa0") + split_param(p_cost(thorough, timeout=900 if thorough else 150), "pa0")
+        return [ob for ob in p_contention(thorough, H=12 if thorough else 8, timeout=900 if thorough else 150) if "/rule=0/" in ob["name"] and "solo=None" in ob["name"]] + split_param(p_absence(wmax=3 if thorough else 2, H=12 if thorough else 8, timeout=900 if thorough else 200), "pa0") + split_param(p_cost(thorough, timeout=900 if thorough else 150), "pa0")
     raise KeyError(prop)
